@@ -274,15 +274,23 @@ def wrapStringForMcnp (string : Str) (v : Version) (isFirstLine : Bool) : Except
 
 /-! ## montepy/cell.py -/
 
+/-- `str.rstrip()` -/
+def pyRstrip (s : Str) : Str := (s.reverse.dropWhile pyIsSpace).reverse
+
 /-- cell.py:Cell.format_for_mcnp_input.cleanup_last_line (`ret` is never empty there: the cell number precedes) -/
 def cleanupLastLine (ret : Str) : Str :=
-  match (splitLines ret).getLast? with
-  | none => ret   -- Python: IndexError; not reachable from format_for_mcnp_input
-  | some lastLine =>
-    if isCommentLine lastLine || lastLine.contains '$' then ret ++ ['\n'] ++ blanks Gen.blankSpaceContinue
-    else match lastLine.getLast? with
-      | some c => if !pyIsSpace c then ret ++ [' '] else ret
-      | none => ret   -- Python: IndexError on an empty last line
+  -- a padding that ends in a line break: the next parameter continues the input
+  if ret.getLast? == some '\n' then ret ++ blanks Gen.blankSpaceContinue
+  else
+    match (splitLines ret).getLast? with
+    | none => ret   -- Python: IndexError; not reachable from format_for_mcnp_input
+    | some lastLine =>
+      if isCommentLine lastLine || lastLine.contains '$' then ret ++ ['\n'] ++ blanks Gen.blankSpaceContinue
+      -- a line that ends in the continuation mark "&" has to stay the end of its line
+      else if (pyRstrip lastLine).getLast? == some '&' then ret ++ ['\n'] ++ blanks Gen.blankSpaceContinue
+      else match lastLine.getLast? with
+        | some c => if !pyIsSpace c then ret ++ [' '] else ret
+        | none => ret   -- Python: IndexError on an empty last line
 
 /-- what the loop of `Cell.format_for_mcnp_input` appends -/
 inductive Piece where
@@ -297,11 +305,15 @@ def joinNl : List Str → Str
 
 /-- cell.py:Cell.format_for_mcnp_input, the string handed to `wrap_string_for_mcnp` -/
 def cellAssemble (pieces : List Piece) : Str :=
-  pieces.foldl (fun ret p =>
+  let ret := pieces.foldl (fun ret p =>
     match p with
     | .node t => ret ++ t
     | .modifier ls => cleanupLastLine ret ++ joinNl ls
     | .param t => cleanupLastLine ret ++ t) []
+  -- the input must not end in the continuation mark "&": it would continue into the next input
+  let stripped := pyRstrip ret
+  if stripped.getLast? == some '&' && !(((splitLines stripped).getLast?.getD []).contains '$') then stripped.dropLast
+  else ret
 
 /-- cell.py:Cell.format_for_mcnp_input -/
 def cellFormat (pieces : List Piece) (v : Version) : Except Err (List Str × Nat) :=
